@@ -101,7 +101,7 @@ def spec(tier, seed):
         hs.append(Harness(name, obligation=obl, encodes=ENC, bounds=B, timeout_s=900 if grp == "q" else 2400, want_values=wv,
                           tiers=("quick", "thorough") if grp == "q" else ("thorough",)))
     hs.append(Harness("c17_vacuity_witness", expect_fail=True, obligation="twin: file model reachable", timeout_s=120))
-    u = Unit("seglog_c17", generate, hs, kani_flags=("-Z", "stubbing"), jobs=3, workers=5, crate_subdir="seglog", harness_prefix="verif::c17::", playback=False)
+    u = Unit("seglog_c17", generate, hs, kani_flags=("-Z", "stubbing"), jobs=2 if tier == "thorough" else 3, workers=4 if tier == "thorough" else 5, crate_subdir="seglog", harness_prefix="verif::c17::", playback=False)
     return PropSpec("C17", [u], native_replay=native_replay,
                     assumptions=["file model: POSIX regular file; no short writes / IO errors", "crc32fast baseline (table) implementation instead of the cpuid-dispatched SIMD one",
                                  "ReadError::Io / WriteError::Io carry a unit payload"],
